@@ -94,6 +94,11 @@ extern "C" fn remove_private_tmp() {
 /// chain (A5SIM_SHARED_TMP): sharing one directory is what makes them a chain.
 pub fn enter_private_tmp() {
     if std::env::var_os("A5SIM_SHARED_TMP").is_some() {
+        // a world of a chain: the chain's directory is also where relative paths land
+        let cwd = std::env::temp_dir().join("cwd");
+        if std::fs::create_dir_all(&cwd).is_ok() {
+            let _ = std::env::set_current_dir(&cwd);
+        }
         return;
     }
     let d = std::env::temp_dir().join(format!("a5sim-{}", std::process::id()));
@@ -107,6 +112,10 @@ pub fn enter_private_tmp() {
         std::env::set_var("XDG_CACHE_HOME", format!("{}/home/.cache", ds));
         // the shim injects write-path faults only on files under this directory
         std::env::set_var("A5SIM_FS_ROOT", &ds);
+        // relative paths land there too
+        if std::fs::create_dir_all(d.join("cwd")).is_ok() {
+            let _ = std::env::set_current_dir(d.join("cwd"));
+        }
         *PRIVATE_TMP.lock().unwrap() = Some(ds);
         unsafe { atexit(remove_private_tmp) };
     }
@@ -124,6 +133,21 @@ pub fn wipe_private_tmp() -> u64 {
                     let p = e.path();
                     if p.is_dir() {
                         if p.file_name().map(|f| f == "home").unwrap_or(false) && dir_is_bare_home(&p) {
+                            continue;
+                        }
+                        if p.file_name().map(|f| f == "cwd").unwrap_or(false) {
+                            // the zygote's own working directory: empty it, keep it
+                            if let Ok(inner) = std::fs::read_dir(&p) {
+                                for x in inner.flatten() {
+                                    n += 1;
+                                    let q = x.path();
+                                    if q.is_dir() {
+                                        let _ = std::fs::remove_dir_all(&q);
+                                    } else {
+                                        let _ = std::fs::remove_file(&q);
+                                    }
+                                }
+                            }
                             continue;
                         }
                         n += 1;
